@@ -1278,18 +1278,35 @@ func (f *fgen) stmt() (terminated bool) {
 		}
 	case k == 32: // leave the function by a branch to the function label (br / br_if / br_table)
 		depth := uint32(len(f.labels) - 1)
+		// half of the time extra operands (of other types than the results where possible) lie beneath the results
+		// when the function is left: the branch discards them
+		extra := 0
+		if r.Bool() {
+			extra = 1 + r.Intn(3)
+			for i := 0; i < extra; i++ {
+				f.expr(f.g.randType(), 1)
+			}
+			f.g.use("leave-function-with-extra-operands")
+		}
 		for _, t := range f.sig.Results {
 			f.expr(t, d-1)
 		}
-		switch r.Intn(3) {
+		switch r.Intn(4) {
 		case 0:
 			c.Br(depth)
 			f.g.use("br-to-function-label")
+			return true
+		case 3:
+			c.Return()
+			f.g.use("return")
 			return true
 		case 1:
 			f.cond(d - 1)
 			c.BrIf(depth)
 			for range f.sig.Results {
+				c.Drop()
+			}
+			for i := 0; i < extra; i++ {
 				c.Drop()
 			}
 			f.g.use("br_if-to-function-label")
